@@ -39,10 +39,11 @@ type xmLog struct{ entries []string }
 type xmodFamily struct {
 	tier  string
 	scens []xmScenario
+	seqs  []xsScenario // call sequences within one body (fam_xseq.go); replay index = len(scens) + i
 }
 
 func newXmodFamily(tier string) *xmodFamily {
-	f := &xmodFamily{tier: tier}
+	f := &xmodFamily{tier: tier, seqs: xsScenarios()}
 	for depth := 1; depth <= 3; depth++ {
 		idx := make([]int, depth)
 		for {
@@ -68,7 +69,9 @@ func newXmodFamily(tier string) *xmodFamily {
 func (f *xmodFamily) Name() string { return "xmod" }
 func (f *xmodFamily) Chunks() int  { return 1 }
 func (f *xmodFamily) Bounds() map[string]any {
-	return map[string]any{"depths": []int{1, 2, 3}, "link_ways": xmWays, "host_functions": xmHosts, "scenarios": len(f.scens)}
+	return map[string]any{"depths": []int{1, 2, 3}, "link_ways": xmWays, "host_functions": xmHosts, "scenarios": len(f.scens),
+		"sequences": map[string]any{"m1_memory_shapes": xsShapes, "bodies": []string{"F;H", "H;F;H", "F;F;H", "H;H"}, "separation": xsSeps, "m2_f_does": xsM2Kinds,
+			"m2_memory_shapes": xsM2Shapes, "host_functions": xsHosts, "scenarios": len(f.seqs)}}
 }
 
 // xmModule builds the link module of one level.
@@ -153,6 +156,11 @@ func xmHostFor(rt wazero.Runtime) *xmLog {
 	b := rt.NewHostModuleBuilder(xmEnv)
 	b.NewFunctionBuilder().WithGoModuleFunction(mk(false), []api.ValueType{api.ValueTypeI32}, []api.ValueType{api.ValueTypeI32}).Export("h")
 	b.NewFunctionBuilder().WithGoModuleFunction(mk(true), []api.ValueType{api.ValueTypeI32}, []api.ValueType{api.ValueTypeI32}).Export("hcb")
+	// hn only records who it is told the caller is (usable by callers without a memory)
+	b.NewFunctionBuilder().WithGoModuleFunction(api.GoModuleFunc(func(ctx context.Context, mod api.Module, stack []uint64) {
+		l.entries = append(l.entries, "hn caller="+mod.Name())
+		stack[0] = xsHnTag
+	}), nil, []api.ValueType{api.ValueTypeI32}).Export("hn")
 	if _, err := b.Instantiate(bg); err != nil {
 		panic(fmt.Sprintf("xmod host module: %v", err))
 	}
@@ -310,7 +318,51 @@ func (f *xmodFamily) Run(rts [2]wazero.Runtime, c int, sel *replay, res *chunkRe
 			res.nontrivial(v0([]uint64{uint64(si), 0x786d6f64}))
 		}
 	}
+	var xsCache [2]map[string]wazero.CompiledModule
+	for e := 0; e < 2; e++ {
+		xsCache[e] = map[string]wazero.CompiledModule{}
+		defer func(e int) {
+			for _, cm := range xsCache[e] {
+				cm.Close(bg)
+			}
+		}(e)
+	}
+	for qi, s := range f.seqs {
+		idx := len(f.scens) + qi
+		if sel != nil && sel.Prog >= 0 && sel.Prog != idx {
+			continue
+		}
+		res.Progs++
+		res.Hists++
+		res.Calls++
+		oc, oi := xsRun(rts[0], logs[0], xsCache[0], s), xsRun(rts[1], logs[1], xsCache[1], s)
+		want := xsReference(s)
+		if verbose {
+			fmt.Printf("scenario %s\n  compiler:    %s\n  interpreter: %s\n  reference:   %s\n", s.describe(), oc, oi, want)
+		}
+		res.inc(oi.outcome)
+		cs, is, ws := oc.String(), oi.String(), want.String()
+		kind := ""
+		switch {
+		case cs != is && cs == ws:
+			kind = "interpreter-deviates-from-reference"
+		case cs != is && is == ws:
+			kind = "compiler-deviates-from-reference"
+		case cs != is:
+			kind = "engines-differ"
+		case cs != ws:
+			kind = "both-deviate-from-reference"
+		}
+		if kind == "" {
+			res.nontrivial(v0([]uint64{uint64(idx), 0x78736571}))
+			continue
+		}
+		sig := fmt.Sprintf("xmod:seq:m1=%s:[%s]:%s:%s:m2=%s/%s:%s", xsShapes[s.shape], xsSeqs[s.seq], xsSeps[s.sep], xsHosts[s.host], xsM2Shapes[s.m2shape], xsM2Kinds[s.m2kind], kind)
+		res.mismatch(mismatch{Sig: sanitizeSig(sig), What: fmt.Sprintf("xmod sequence %s: compiler {%s} interpreter {%s} reference {%s}", s.describe(), cs, is, ws),
+			Replay: replay{Tier: f.tier, Family: "xmod", Chunk: 0, Prog: idx}})
+	}
 	if sel == nil {
+		res.Samples = append(res.Samples, map[string]any{"family": "xmod", "sequence": f.seqs[len(f.seqs)/2].describe(), "reference": xsReference(f.seqs[len(f.seqs)/2]).String()})
 		res.Samples = append(res.Samples, map[string]any{"family": "xmod", "scenario": f.describe(f.scens[len(f.scens)/2]), "reference": f.reference(f.scens[len(f.scens)/2]).String()})
 	}
 }
